@@ -78,6 +78,92 @@ def run(ctx):
     from rules import c02
 
     ctx.import_obligations("R5", c02.r3)
+    r6(ctx)
+
+
+_MUT_CTORS = {"dict", "list", "set", "bytearray", "collections.defaultdict", "defaultdict", "collections.OrderedDict", "OrderedDict",
+              "collections.Counter", "Counter", "collections.deque", "deque"}
+
+
+def _holds_mutable(v: ast.AST) -> bool:
+    for n in ast.walk(v):
+        if isinstance(n, (ast.Dict, ast.List, ast.Set, ast.ListComp, ast.DictComp, ast.SetComp)):
+            return True
+        if isinstance(n, ast.Call) and dotted(n.func) in _MUT_CTORS:
+            return True
+    return False
+
+
+def r6(ctx):
+    """No function mutates an object that lives at module or class level: such an object is shared by every
+    configuration, decoder and call, so writing to it makes results depend on what was done before."""
+    shared_mod, shared_cls = {}, {}
+    for m in ctx.repo.modules.values():
+        for name, v in m.consts.items():
+            if _holds_mutable(v) and not (isinstance(v, ast.Call) and dotted(v.func) in ("MappingProxyType", "types.MappingProxyType", "frozenset", "tuple")):
+                shared_mod[(m.name, name)] = v
+        for cq in m.classes:
+            for name, v in ctx.repo.class_attrs(f"{m.name}.{cq}").items():
+                if _holds_mutable(v):
+                    shared_cls[(m.name, cq, name)] = v
+
+    def is_source(f, e):
+        if isinstance(e, ast.Name) and (f.module.name, e.id) in shared_mod and isinstance(e.ctx, ast.Load):
+            from csverif.astutil import assignments_to, params
+            if e.id not in params(f.node) and not assignments_to(f.node, e.id):
+                return f"module-level object {f.module.name}.{e.id}"
+        if isinstance(e, ast.Attribute):
+            b = dotted(e.value)
+            if b in ("self", "cls") and f.cls:
+                # class attribute read through the instance (unless the instance attribute is assigned in the class)
+                c = f.cls
+                seen = set()
+                while c and c not in seen:
+                    seen.add(c)
+                    if (f.module.name, c, e.attr) in shared_cls:
+                        inst = any(isinstance(t, ast.Attribute) and dotted(t.value) == "self" and t.attr == e.attr
+                                   for g in ctx.repo.methods(f"{f.module.name}.{c}") for st in statements(g.node) if isinstance(st, (ast.Assign, ast.AnnAssign))
+                                   for t in (st.targets if isinstance(st, ast.Assign) else [st.target]))
+                        if not inst:
+                            return f"class-level object {c}.{e.attr}"
+                    bases = [dotted(x) for x in ctx.repo.cls(f"{f.module.name}.{c}").bases]
+                    c = next((x for x in bases if x and f"{x}" in ctx.repo.module(f.module.name).classes), None)
+            elif b:
+                for (mn, cq, an) in shared_cls:
+                    if an == e.attr and b.split(".")[-1] == cq:
+                        return f"class-level object {cq}.{an}"
+                for (mn, an) in shared_mod:
+                    if an == e.attr and b == mn:
+                        return f"module-level object {mn}.{an}"
+        return None
+
+    al = Alias(ctx, is_source, deep_attrs=True).run()
+    finds = al.findings()
+    ctx.rep.count("shared_module_or_class_objects", len(shared_mod) + len(shared_cls), floor=3)
+    ctx.rep.extra["shared_objects"] = sorted([f"{a}.{b}" for a, b in shared_mod] + [f"{a}.{b}.{c}" for a, b, c in shared_cls])
+    for x in finds:
+        ctx.ob("R6", "ALIAS", x.func, f"{x.kind} on {x.target}", False,
+               f"`{src(x.node)[:70]}` mutates an object shared at module/class level: {x.target} <- {x.why}", x.node)
+    # memoisation makes every caller share one result object: allowed only for results that cannot be mutated
+    memo = 0
+    for f in ctx.repo.all_funcs():
+        decs = [dotted(d.func if isinstance(d, ast.Call) else d) or "" for d in getattr(f.node, "decorator_list", [])]
+        if not any(d.split(".")[-1] in ("lru_cache", "cache", "cached_property", "memoize", "memoized") for d in decs):
+            continue
+        memo += 1
+        from csverif.q import inline, returns_of
+        bad = []
+        for r in returns_of(f):
+            v = inline(f.node, r.value) if r.value is not None else ast.Constant(value=None)
+            imm = isinstance(v, (ast.Constant, ast.JoinedStr, ast.Compare)) or (isinstance(v, ast.Call) and dotted(v.func) in ("bytes", "str", "int", "bool", "float", "frozenset", "len")) \
+                or (isinstance(v, ast.Call) and isinstance(v.func, ast.Attribute) and v.func.attr in ("decode", "encode", "hex", "join", "format", "strip", "lower", "upper", "digest", "hexdigest"))
+            if not imm:
+                bad.append(src(r.value)[:50])
+        ctx.ob("R6", "ALIAS", f, "memoised result is immutable", not bad,
+               "cached results are scalars" if not bad else f"results shared between callers through the cache may be mutable: {bad} (a later identical call sees earlier callers' modifications)", f.node)
+    ctx.rep.counts["memoised_functions"] = memo
+    ctx.ob("R6", "ALIAS", "package", "no writer of module/class-level objects", not finds,
+           f"{len(shared_mod)} module-level and {len(shared_cls)} class-level mutable objects; {len(finds)} mutation sites reach one")
 
 
 def r2(ctx):
